@@ -390,4 +390,21 @@ theorem query_spec (dist : P → P → α) (T : TreeFn P α) (hT : TreeOK dist T
 
 end Query
 
+/-! ### non-vacuity of the contract -/
+
+/-- a brute-force "tree" — it satisfies the contract, so `TreeOK` is not vacuous -/
+def bruteTree {P α : Type} [LE α] [DecidableRel (α := α) (· ≤ ·)] (dist : P → P → α) :
+    TreeFn P α := fun build qs rt =>
+  let ans := qs.map (fun q => specRow dist build q rt)
+  (ans.map (·.map Prod.fst), ans.map (·.map Prod.snd))
+
+theorem bruteTree_ok {P α : Type} [LE α] [DecidableRel (α := α) (· ≤ ·)] (dist : P → P → α) :
+    TreeOK dist (bruteTree dist) := by
+  intro build qs rt
+  refine ⟨qs.map (fun q => specRow dist build q rt), rfl, rfl, ?_⟩
+  rw [List.forall₂_map_left_iff, List.forall₂_same]
+  intro q _
+  exact List.Perm.refl _
+
+
 end Geo
